@@ -694,6 +694,9 @@ EXPLANATION = (
     "Decides the finite core of the typing judgement and the presence/condition of each rule; does not decide the iff over "
     "all programs (the inferred types feeding the tables are themselves computed by infer_expr_type, which is not evaluated)."
 )
+EXPLANATION += (
+    " Added after seeded changes were missed: R2 a rule living in a helper that takes the node as a parameter applies to every kind of node (no kind is exempted on the way to its emit_error), and every statement kind with a condition hands it to check_boolean_expr unconditionally; R4 a redeclaration stores the initialiser's type into the existing scope entry and a new declaration pushes it (found in check_stmt and its closures, whatever the spelling); R5 traversal completeness - in check_expr and check_stmt every child field of every node kind (expressions, argument/element lists, blocks, optional ones on their Some side, callee expressions destructured in place) is handed to a visitor on every path through its arm, directly, through the loop over the list, or through a helper that itself visits its parameter on every path; the one named exception (a function definition that predeclaration did not register) rests on the checked fact that every non-registering path of predeclare_block_functions passes an emit_error."
+)
 ASSUMPTIONS = ["the reference predicates in rules/c09.py state the documented typing rules (docs/*.md plus the rule comments in resolver.rs)", "infer_expr_type yields the operand's static type"]
 TRUSTED = ["rustc nightly HIR name resolution and MIR", "nsx exporter", "nsverif pattern evaluator / partial evaluator"]
 NONTRIVIAL = "one obligation per typing cell (640), per accepted concrete cell, per single-operand rule and per rule-presence row; distinct = distinct cell/row"
